@@ -355,6 +355,13 @@ def run_hyp(desc):
 def run_wcmatch(desc):
     """WcMatch file patterns go through the same decoder."""
     out = Outcome()
+    # escapes that decode to surrogates, next to each other: each escape stands for its own code point (a high surrogate followed by a low
+    # one is two characters, not the astral character the pair would encode in UTF-16)
+    for p_ in ('\\ud83d\\ude00', '[\\ud83d\\ude00]', '\\U0000d83d\\U0000de00', '\\ud83d\\ude00x', 'a\\ud83d\\ude00', '\\ude00\\ud83d', '\\ud83d\\x41',
+               '\\ud83d*\\ude00', '\\ud800\\udc00', '\\udbff\\udfff'):
+        for mode_ in ('fn', 'gl'):
+            for win_ in (False, True):
+                check(p_, False, mode_, win_, out, 'surrogates')
     import os
     with util.temp_root() as root:
         names = ['A', 'x41', 'a b', '*', 'a1', '1', 'n', '101', 'xyz']
